@@ -100,6 +100,39 @@ func runC05ThrottleFloor(c *Ctx) {
 		}
 	}
 	if n == 0 {
+		// compare-and-assign form of max: the delay is an operand of an ordering comparison
+		for _, fn := range p.AllSrcFuncs(pk) {
+			allInstrs(fn, func(in ssa.Instruction) {
+				bo, ok := in.(*ssa.BinOp)
+				if !ok {
+					return
+				}
+				switch bo.Op {
+				case token.LSS, token.GTR, token.LEQ, token.GEQ:
+				default:
+					return
+				}
+				for _, side := range []ssa.Value{bo.X, bo.Y} {
+					for x := range backSlice(side) {
+						var st *types.Struct
+						var idx int
+						switch y := x.(type) {
+						case *ssa.FieldAddr:
+							st, idx = derefStruct(y.X.Type()), y.Field
+						case *ssa.Field:
+							st, idx = derefStruct(y.X.Type()), y.Field
+						}
+						if st != nil && st.Field(idx).Name() == "delay" {
+							n++
+							c.OK("throttle delay compared with the back-off in "+fnName(fn), p.Pos(bo.Pos()), "compare-and-assign form")
+							return
+						}
+					}
+				}
+			})
+		}
+	}
+	if n == 0 {
 		c.Undecided("use of the throttle delay in the retry sender", "-", "not found")
 	}
 }
@@ -649,19 +682,22 @@ func runC02Round5(c *Ctx) {
 		c.Undecided("memory queue enqueue / Shutdown", "-", "not found")
 		return
 	}
+	// an error return on the stopped==true side of a test of the flag
 	readsStopped := false
-	allInstrs(addFn, func(in ssa.Instruction) {
-		if u, ok := in.(*ssa.UnOp); ok && u.Op == token.MUL {
-			if fa, ok := u.X.(*ssa.FieldAddr); ok && derefStruct(fa.X.Type()).Field(fa.Field).Name() == "stopped" {
-				// … and an error return depends on it
-				for _, r := range *u.Referrers() {
-					if _, ok := r.(*ssa.If); ok {
-						readsStopped = true
-					}
+	for _, r := range returnsOf(addFn) {
+		res := resultsOf(r)
+		if len(res) == 0 || isNilConst(res[len(res)-1]) {
+			continue
+		}
+		for _, g := range guardsOf(r.Block()) {
+			v, br := boolOf(g)
+			if u, ok := v.(*ssa.UnOp); ok && u.Op == token.MUL && br {
+				if fa, ok := u.X.(*ssa.FieldAddr); ok && derefStruct(fa.X.Type()).Field(fa.Field).Name() == "stopped" {
+					readsStopped = true
 				}
 			}
 		}
-	})
+	}
 	c.Check(readsStopped, fnName(addFn)+" refuses when the queue is stopped", p.Pos(addFn.Pos()), "branch on the stopped flag", "the enqueue never looks at the stopped flag: ConsumeLogs after Shutdown returns nil and the data silently disappears (given=5 exported=0 enqueue_failed=0); a producer blocked by block_on_overflow at shutdown is woken later by a completion and enqueues behind the consumers' back")
 	wakes := false
 	for _, s := range calls(shutFn, isSignal) {
@@ -1227,5 +1263,829 @@ func runC11Round5(c *Ctx) {
 	}
 	if n == 0 {
 		c.Undecided("notification callback of the status state machine", "-", "not found")
+	}
+}
+
+// ---------- C09.R16, C11.R13, C12.R15, C13.R16/R17 ----------
+func runC09EntryForwards(c *Ctx) {
+	p := c.P
+	c.Rule("R16", "ORD", "the nodes the graph builder puts in front of a pipeline forward unconditionally: a Consume* method declared in service/internal/graph has no path to a return that bypasses the call of the next consumer (no verdict on the context, the payload or anything else stands between a receiver and the pipeline it feeds)", 0)
+	gpk := p.Pkg("service/internal/graph")
+	if gpk == nil {
+		c.Anchor("service/internal/graph")
+		return
+	}
+	n := 0
+	for _, fn := range p.AllSrcFuncs(gpk) {
+		if fn.Parent() != nil || fn.Signature.Recv() == nil || !strings.HasPrefix(fn.Name(), "Consume") || len(fn.Params) != 3 {
+			continue
+		}
+		n++
+		via := map[ssa.Instruction]bool{}
+		for _, ci := range calls(fn, func(ci ssa.CallInstruction) bool {
+			if ci.Common().IsInvoke() {
+				return strings.HasPrefix(ci.Common().Method.Name(), "Consume")
+			}
+			if f := calleeOf(ci); f != nil {
+				return strings.HasPrefix(f.Name(), "Consume")
+			}
+			// func-typed field / value
+			return staticCalleeFn(ci) == nil && builtinName(ci) == ""
+		}) {
+			via[ci.(ssa.Instruction)] = true
+		}
+		esc, r := reachesReturnWithout(fn, nil, via)
+		c.Check(!esc, fnName(fn)+" always forwards", p.Pos(fn.Pos()), "every return is behind the call of the next consumer", "a path returns without handing the payload on ("+posOf(p, r)+"): a batch whose receiver context ended while it was inside an earlier pipeline is delivered to that pipeline's exporter but not to the pipeline behind the connector")
+	}
+	if n == 0 {
+		c.OK("package graph declares no Consume* method of its own (the entry nodes embed the consumer function types)", "-", "nothing stands between a receiver and its pipeline")
+	}
+}
+
+func runC11HistoryComplete(c *Ctx) {
+	p := c.P
+	c.Rule("R13", "GATE", "the shared component's replay history records every event it emits: whether an event is remembered depends on the presence of attached sources only, never on the event itself (its status, what was remembered before) – an instance attached later is replayed the true sequence, ending in the current status", 1)
+	pk := p.Pkg("internal/sharedcomponent")
+	if pk == nil {
+		c.Anchor("internal/sharedcomponent")
+		return
+	}
+	n := 0
+	for _, fn := range p.AllSrcFuncs(pk) {
+		if fn.Parent() != nil || len(fn.Params) != 2 {
+			continue
+		}
+		ev := fn.Params[1]
+		allInstrs(fn, func(in ssa.Instruction) {
+			st, ok := in.(*ssa.Store)
+			if !ok {
+				return
+			}
+			fa, ok := st.Addr.(*ssa.FieldAddr)
+			if !ok || !typeIs(fa.X.Type(), "container/ring", "Ring") || derefStruct(fa.X.Type()).Field(fa.Field).Name() != "Value" {
+				return
+			}
+			n++
+			dep := false
+			for _, cond := range controllingCondsDeep(st.Block()) {
+				for v := range backSlice(cond) {
+					if v == ssa.Value(ev) {
+						dep = true
+					}
+				}
+			}
+			c.Check(!dep, "event remembered in "+fnName(fn)+" whatever it is", p.Pos(st.Pos()), "guard independent of the event", "whether the event enters the replay history depends on the event (e.g. `no event of this status is remembered yet`): after RecoverableError → OK → RecoverableError the history ends with OK, a signal attached afterwards is replayed an outdated status and the instances of one component disagree for good")
+		})
+	}
+	if n == 0 {
+		c.Undecided("store into the replay ring", "-", "not found")
+	}
+}
+
+func runC12Shares5(c *Ctx) {
+	shareRule(c, "C13", runC13, []string{"C13.R11"}, "R15", "ORD", "the expanded-value hook is the first decode hook (same rule as C13.R11): every other hook – the one that replaces nil map entries by zero structs included – sees the value a whole-value reference stands for, so `${file:m.yaml}` with a null entry decodes like the same map written in place", 1)
+}
+
+func runC13Round5(c *Ctx) {
+	p := c.P
+	c.Rule("R16", "COV", "every way of loading a configuration validates it with the recursive validator: each function of the collector that obtains the configuration from the provider calls xconfmap.Validate on it, and nothing in the collector calls the root Config.Validate directly (that runs the root rules only – component, nested, telemetry and per-pipeline rules are skipped)", 2)
+	opk := p.Pkg("otelcol")
+	if opk == nil {
+		c.Anchor("otelcol")
+		return
+	}
+	n := 0
+	for _, fn := range p.AllSrcFuncs(opk) {
+		if fn.Parent() != nil {
+			continue
+		}
+		gets := callsNamed(fn, func(f *types.Func) bool {
+			return f.Name() == "Get" && f.Pkg() != nil && f.Pkg().Path() == pkgOtelcol && strings.Contains(f.FullName(), "ConfigProvider")
+		})
+		if len(gets) > 0 {
+			n++
+			val := callsNamed(fn, func(f *types.Func) bool {
+				return f.Name() == "Validate" && f.Pkg() != nil && strings.HasSuffix(f.Pkg().Path(), "/confmap/xconfmap")
+			})
+			c.Check(len(val) > 0, "configuration obtained in "+fnName(fn)+" is validated recursively", p.Pos(gets[0].Pos()), "xconfmap.Validate", "the loaded configuration is not passed to xconfmap.Validate: on this load path (dry run / `validate`) an invalid extension setting, an invalid nested setting and an invalid service::telemetry view are accepted, a processor listed twice makes the graph builder panic instead of returning an error")
+		}
+		for _, ci := range callsNamed(fn, func(f *types.Func) bool {
+			return f.Name() == "Validate" && f.FullName() == "(*"+pkgOtelcol+".Config).Validate"
+		}) {
+			n++
+			c.Bad("root Config.Validate called directly in "+fnName(fn), p.Pos(ci.Pos()), "only the root rules run: nested validators are skipped")
+		}
+	}
+	if n == 0 {
+		c.Undecided("functions that obtain the configuration", "-", "none found")
+	}
+
+	c.Rule("R17", "GATE", "a written null stays null except where a struct is expected: the decode hook that replaces nil map entries by pointers to zero values is limited to pointers to structs (its guard tests the pointed-to kind for Struct) – `attribute: null` under a map of *string means `suppress`, not the empty string", 1)
+	cpk := p.Pkg("confmap")
+	if cpk == nil {
+		c.Anchor("confmap")
+		return
+	}
+	n = 0
+	for _, fn := range p.AllSrcFuncs(cpk) {
+		if fn.Parent() == nil {
+			continue
+		}
+		sets := callsNamed(fn, func(f *types.Func) bool { return f.FullName() == "(reflect.Value).SetMapIndex" })
+		news := callsNamed(fn, func(f *types.Func) bool { return f.FullName() == "reflect.New" })
+		nils := callsNamed(fn, func(f *types.Func) bool { return f.FullName() == "(reflect.Value).IsNil" })
+		if len(sets) == 0 || len(news) == 0 || len(nils) == 0 {
+			continue
+		}
+		n++
+		structTest := false
+		for _, s := range sets {
+			for _, cond := range controllingCondsDeep(s.Block()) {
+				if bo, ok := cond.(*ssa.BinOp); ok && bo.Op == token.EQL {
+					if k, isK := constInt(bo.Y); isK && k == 25 { // reflect.Struct
+						structTest = true
+					}
+				}
+			}
+		}
+		c.Check(structTest, "nil-entry expansion in "+fnName(fn)+" is limited to struct pointers", p.Pos(fn.Pos()), "guard tests Elem().Kind() == reflect.Struct", "every nil entry of a map of pointers is replaced by a pointer to the zero value: `service::telemetry::resource: {service.name: null}` (documented as `suppress this attribute`) loads as &\"\" and is emitted as an empty string")
+	}
+	if n == 0 {
+		c.Undecided("nil-entry expansion hook", "-", "not found")
+	}
+}
+
+// ---------- shared mutable defaults (C14.R12, C16.R13) ----------
+func hasMapField(t types.Type, depth int) bool {
+	st, ok := t.Underlying().(*types.Struct)
+	if !ok || depth > 2 {
+		return false
+	}
+	for i := 0; i < st.NumFields(); i++ {
+		ft := st.Field(i).Type()
+		switch u := ft.Underlying().(type) {
+		case *types.Map:
+			return true
+		case *types.Struct:
+			_ = u
+			if hasMapField(ft, depth+1) {
+				return true
+			}
+		}
+	}
+	return false
+}
+
+// sharedDefaults reports, for the packages below config/, every place where a package-level struct value that holds a map is
+// copied out as a whole (the copy shares the map), or a package-level map is stored somewhere instead of being read.
+func runSharedDefaults(c *Ctx, ruleID, text, detail string, pkgRels []string) {
+	p := c.P
+	c.Rule(ruleID, "OWN", text, 1)
+	n, bad := 0, 0
+	for _, rel := range pkgRels {
+		pk := p.Pkg(rel)
+		if pk == nil {
+			continue
+		}
+		for _, fn := range p.AllSrcFuncs(pk) {
+			if fn.Name() == "init" || strings.HasPrefix(fn.Name(), "init#") {
+				continue
+			}
+			allInstrs(fn, func(in ssa.Instruction) {
+				u, ok := in.(*ssa.UnOp)
+				if !ok || u.Op != token.MUL {
+					return
+				}
+				g, ok := u.X.(*ssa.Global)
+				if !ok || g.Pkg == nil || g.Pkg.Pkg != pk.Types {
+					return
+				}
+				n++
+				elem := g.Type().(*types.Pointer).Elem()
+				if hasMapField(elem, 0) {
+					bad++
+					c.Bad("default built in "+fnName(fn)+" is a value of its own", p.Pos(u.Pos()), "the function copies the package-level value "+g.Name()+" as a whole; the copy shares the map inside it with every other copy: "+detail)
+					return
+				}
+				if _, isMap := elem.Underlying().(*types.Map); isMap {
+					// a package-level table may be read (lookup, range); it must not be handed out
+					for _, r := range *u.Referrers() {
+						switch x := r.(type) {
+						case *ssa.Store:
+							if x.Val == ssa.Value(u) {
+								if _, local := x.Addr.(*ssa.Alloc); !local {
+									bad++
+									c.Bad("table "+g.Name()+" used in "+fnName(fn)+" stays private", p.Pos(x.Pos()), "the package-level map is stored into an object that is handed out: every holder shares (and can write) the same table")
+								}
+							}
+						case *ssa.Return:
+							bad++
+							c.Bad("table "+g.Name()+" used in "+fnName(fn)+" stays private", p.Pos(x.Pos()), "the package-level map itself is returned")
+						}
+					}
+				}
+			})
+		}
+	}
+	if n == 0 {
+		c.Undecided("reads of package-level values in "+strings.Join(pkgRels, ", "), "-", "none found")
+	} else if bad == 0 {
+		c.OK("no package-level value holding a map is copied out or handed out", "-", fmt.Sprintf("%d reads of package-level values examined", n))
+	}
+}
+
+// startCtxCaptured: Start methods among funcs whose goroutines capture the context given to Start.
+func checkStartCtxGoroutines(c *Ctx, funcs []*ssa.Function, detail string) int {
+	p := c.P
+	total := 0
+	for _, fn := range funcs {
+		if fn.Parent() != nil || fn.Name() != "Start" || fn.Signature.Recv() == nil || len(fn.Params) < 2 {
+			continue
+		}
+		ctxParam := fn.Params[1]
+		if !typeIs(ctxParam.Type(), "context", "Context") {
+			continue
+		}
+		n := 0
+		for _, f := range withAnon(fn) {
+			allInstrs(f, func(in ssa.Instruction) {
+				g, ok := in.(*ssa.Go)
+				if !ok {
+					return
+				}
+				n++
+				total++
+				captured := false
+				var vals []ssa.Value
+				vals = append(vals, g.Call.Args...)
+				if mc, ok := g.Call.Value.(*ssa.MakeClosure); ok {
+					vals = append(vals, mc.Bindings...)
+				}
+				for _, v := range vals {
+					for s := range backSlice(v) {
+						if s == ssa.Value(ctxParam) {
+							captured = true
+						}
+						if al, ok := s.(*ssa.Alloc); ok {
+							if st := singleStore(al); st != nil && st.Val == ssa.Value(ctxParam) {
+								captured = true
+							}
+						}
+					}
+				}
+				c.Check(!captured, fmt.Sprintf("goroutine #%d started by %s does not capture the Start context", n, fnName(fn)), p.Pos(g.Pos()), "no binding or argument derives from Start's ctx", detail)
+			})
+		}
+	}
+	return total
+}
+
+// ---------- C17.R9 / R10 ----------
+func runC17Round5(c *Ctx) {
+	p := c.P
+	pk := p.Pkg("processor/batchprocessor")
+	if pk == nil {
+		c.Anchor("processor/batchprocessor")
+		return
+	}
+	c.Rule("R9", "PAIR", "a shard that is put into the shard table is started: on the side of LoadOrStore where this call stored the new shard, every path to a return passes the shard's start – a stored but never started shard accepts data through the fast path and never emits it, not even at shutdown", 1)
+	n := 0
+	for _, fn := range p.AllSrcFuncs(pk) {
+		if fn.Parent() != nil {
+			continue
+		}
+		for _, ci := range callsNamed(fn, func(f *types.Func) bool { return f.FullName() == "(*sync.Map).LoadOrStore" }) {
+			v := ci.Value()
+			if v == nil {
+				continue
+			}
+			// the If on the `loaded` result
+			var loadedIf *ssa.If
+			for _, r := range *v.Referrers() {
+				if ex, ok := r.(*ssa.Extract); ok && ex.Index == 1 {
+					for _, rr := range *ex.Referrers() {
+						if iff, ok := rr.(*ssa.If); ok {
+							loadedIf = iff
+						}
+					}
+				}
+			}
+			if loadedIf == nil {
+				continue
+			}
+			n++
+			stored := loadedIf.Block().Succs[1] // loaded == false
+			via := map[ssa.Instruction]bool{}
+			for _, s := range calls(fn, func(x ssa.CallInstruction) bool {
+				f := calleeOf(x)
+				return f != nil && f.Name() == "start"
+			}) {
+				via[s.(ssa.Instruction)] = true
+			}
+			ok := len(via) > 0
+			if len(stored.Instrs) > 0 {
+				first := stored.Instrs[0]
+				for _, r := range returnsOf(fn) {
+					if !(stored == r.Block() || stored.Dominates(r.Block())) {
+						continue
+					}
+					if !via[first] && canReach(first, r, via) {
+						ok = false
+					}
+				}
+			}
+			c.Check(ok, "shard stored by "+fnName(fn)+" is started on every path", p.Pos(ci.Pos()), "start() before every return of the stored side", "a return on the side where the new shard was stored bypasses its start (and leaves it in the table): with the cardinality limit reached, the second arrival with the same new metadata finds the shard through the fast path, gets nil back and its data sits in a shard without a goroutine – never emitted, not even at Shutdown")
+		}
+	}
+	if n == 0 {
+		c.Undecided("LoadOrStore of the shard table", "-", "not found")
+	}
+
+	c.Rule("R10", "PROV", "incoming data is appended behind what is pending: in the add methods of the pending batches every MoveAndAppendTo moves FROM the incoming payload INTO the batch's own container – never the other way round, which would put older pending items behind newer ones (the timer restart after a size-triggered send relies on arrival order)", 3)
+	n = 0
+	for _, fn := range p.AllSrcFuncs(pk) {
+		if fn.Parent() != nil || fn.Name() != "add" || fn.Signature.Recv() == nil || len(fn.Params) != 2 {
+			continue
+		}
+		for _, ci := range callsNamed(fn, func(f *types.Func) bool { return f.Name() == "MoveAndAppendTo" }) {
+			n++
+			args := ci.Common().Args
+			fromParam := func(v ssa.Value) bool {
+				for x := range backSlice(v) {
+					if x == ssa.Value(fn.Params[1]) || loadsParam(x, fn.Params[1]) {
+						return true
+					}
+				}
+				return false
+			}
+			fromRecv := func(v ssa.Value) bool {
+				for x := range backSlice(v) {
+					if fa, ok := x.(*ssa.FieldAddr); ok && strip(fa.X) == ssa.Value(fn.Params[0]) {
+						return true
+					}
+				}
+				return false
+			}
+			okDir := len(args) == 2 && fromParam(args[0]) && !fromRecv(args[0]) && fromRecv(args[1])
+			c.Check(okDir, fmt.Sprintf("move #%d in %s goes from the incoming payload into the pending batch", n, fnName(fn)), p.Pos(ci.Pos()), "source = parameter, destination = receiver's container", "the pending data is moved into the incoming payload (which then becomes the batch): older pending items end up behind newer ones; after a size-triggered send the timer is restarted although an old item is still pending – it waits longer than the timeout (still pending after 1s with a 200ms timeout)")
+		}
+	}
+	if n == 0 {
+		c.Undecided("MoveAndAppendTo in the add methods", "-", "none found")
+	}
+}
+
+// ---------- C18.R14 / R15 ----------
+func runC18Round5(c *Ctx) {
+	p := c.P
+	pk := p.Pkg("internal/memorylimiter")
+	if pk == nil {
+		c.Anchor("internal/memorylimiter")
+		return
+	}
+	c.Rule("R14", "GO", "the shared checker runs until the last user shuts it down, not until the first user's start-up context ends: the goroutine started by the limiter's Start does not capture the context given to Start", 1)
+	if checkStartCtxGoroutines(c, p.AllSrcFuncs(pk), "the checker goroutine selects on the context of the first Start: when that context is cancelled or times out after start-up (WithTimeout + defer cancel around the start) the checker exits while users are still started – no memory check ever runs again") == 0 {
+		c.Undecided("goroutine started by the limiter's Start", "-", "not found")
+	}
+	c.Rule("R15", "GATE", "validation and construction agree on which mode is in effect: the constructor prefers limit_mib whenever it is set, so the consistency rule of the MiB pair (limit_mib > spike_limit_mib) is evaluated whenever limit_mib is set – it is not switched off by the percentage settings; a configuration that validation accepts never makes `limit - spike` wrap around", 1)
+	n := 0
+	for _, fn := range p.AllSrcFuncs(pk) {
+		if fn.Parent() != nil || fn.Name() != "Validate" {
+			continue
+		}
+		fieldsIn := func(v ssa.Value) map[string]bool {
+			out := map[string]bool{}
+			for x := range backSlice(v) {
+				if fa, ok := x.(*ssa.FieldAddr); ok {
+					out[derefStruct(fa.X.Type()).Field(fa.Field).Name()] = true
+				}
+			}
+			return out
+		}
+		allInstrs(fn, func(in ssa.Instruction) {
+			iff, ok := in.(*ssa.If)
+			if !ok {
+				return
+			}
+			fs := fieldsIn(iff.Cond)
+			if !(fs["MemoryLimitMiB"] && fs["MemorySpikeLimitMiB"]) {
+				return
+			}
+			n++
+			pct := ""
+			R := iff.Block()
+			cut := map[*ssa.BasicBlock]bool{R: true}
+			var nilRets []*ssa.BasicBlock
+			for _, r := range returnsOf(fn) {
+				if rs := resultsOf(r); len(rs) == 1 && isNilConst(rs[0]) {
+					nilRets = append(nilRets, r.Block())
+				}
+			}
+			for _, b := range fn.Blocks {
+				pif, ok := b.Instrs[len(b.Instrs)-1].(*ssa.If)
+				if !ok || b == R {
+					continue
+				}
+				which := ""
+				for f := range fieldsIn(pif.Cond) {
+					if strings.Contains(f, "Percentage") {
+						which = f
+					}
+				}
+				if which == "" {
+					continue
+				}
+				// one side leads to the rule, the other side accepts (returns nil) without ever evaluating it
+				for k := 0; k < 2; k++ {
+					toRule := reachFrom([]*ssa.BasicBlock{b.Succs[k]}, nil)[R]
+					otherReach := reachFrom([]*ssa.BasicBlock{b.Succs[1-k]}, cut)
+					otherRule := reachFrom([]*ssa.BasicBlock{b.Succs[1-k]}, nil)[R]
+					accepts := false
+					for _, nr := range nilRets {
+						if otherReach[nr] {
+							accepts = true
+						}
+					}
+					if toRule && !otherRule && accepts {
+						pct = which
+					}
+				}
+			}
+			c.Check(pct == "", "MiB spike rule in "+fnName(fn)+" is evaluated whenever limit_mib is in effect", p.Pos(iff.Cond.Pos()), "not gated on a percentage setting", "the rule is evaluated only on one side of a test of "+pct+": `limit_mib: 100, spike_limit_mib: 200, limit_percentage: 50, spike_limit_percentage: 10` is accepted, the constructor takes the MiB pair, limit - spike wraps around in uint64 and the limiter never refuses or collects, even at twice the hard limit")
+		})
+	}
+	if n == 0 {
+		c.Undecided("MiB spike rule in the limiter's Validate", "-", "not found")
+	}
+}
+
+// ---------- C19.R14–R16, C20.R17, C15.R13/R14, C16.R14 ----------
+func runC19Round5(c *Ctx) {
+	p := c.P
+	shareRule(c, "C04", runC04, []string{"C04.R6"}, "R14", "TS", "nothing that was handed to the batcher disappears uncounted (same rule as C04.R6, the pending-slot typestate): a pending batch is never overwritten before it was flushed with its own completion callbacks", 12)
+	c.Rule("R15", "OWN", "the attribute sets of the two outcomes are slices of their own: in the telemetry wrappers an append whose base is a slice held by a struct field is stored back into that field – two appends to the same field-held base whose results are both kept share its backing array when it has spare capacity, and the second outcome overwrites the first", 2)
+	n := 0
+	for _, rel := range []string{"service/internal/obsconsumer", "exporter/exporterhelper/internal", "receiver/receiverhelper", "processor/processorhelper", "scraper/scraperhelper"} {
+		pk := p.Pkg(rel)
+		if pk == nil {
+			continue
+		}
+		for _, fn := range p.AllSrcFuncs(pk) {
+			for _, ci := range calls(fn, func(ci ssa.CallInstruction) bool { return builtinName(ci) == "append" }) {
+				base := ci.Common().Args[0]
+				u, ok := base.(*ssa.UnOp)
+				if !ok || u.Op != token.MUL {
+					n++
+					continue
+				}
+				fa, ok := u.X.(*ssa.FieldAddr)
+				if !ok {
+					n++
+					continue
+				}
+				n++
+				back := false
+				if v := ci.Value(); v != nil {
+					for _, r := range *v.Referrers() {
+						if st, ok := r.(*ssa.Store); ok {
+							if fa2, ok := st.Addr.(*ssa.FieldAddr); ok && fa2.Field == fa.Field && strip(fa2.X) == strip(fa.X) {
+								back = true
+							}
+						}
+					}
+				}
+				c.Check(back, fmt.Sprintf("append on the field-held slice %s in %s grows that field", derefStruct(fa.X.Type()).Field(fa.Field).Name(), fnName(fn)), p.Pos(ci.Pos()), "result stored back into the same field", "the result of appending to a field-held slice is kept elsewhere: with 3, 5–7 or 9–15 static attributes (spare capacity) the success and the failure attribute sets share one backing array and every data point is recorded as outcome=failure")
+			}
+		}
+	}
+	if n == 0 {
+		c.Undecided("appends in the telemetry wrappers", "-", "none found")
+	}
+
+	c.Rule("R16", "TYP", "the persistent queue recognises the requests sizer by type (it then takes its size from the indices instead of a stale snapshot): every function of the exporter helper that hands out `the requests sizer` returns that very type", 1)
+	var target *types.Named
+	if qpk := p.Pkg("exporter/exporterhelper/internal/queuebatch"); qpk != nil {
+		for _, fn := range p.AllSrcFuncs(qpk) {
+			allInstrs(fn, func(in ssa.Instruction) {
+				if ta, ok := in.(*ssa.TypeAssert); ok && ta.CommaOk {
+					if nt := namedOf(ta.AssertedType); nt != nil && strings.Contains(nt.Obj().Name(), "RequestsSizer") {
+						target = nt.Origin()
+					}
+				}
+			})
+		}
+	}
+	if target == nil {
+		c.Undecided("type test for the requests sizer in the persistent queue", "-", "not found")
+	} else {
+		n := 0
+		for _, pk := range p.Pkgs {
+			if !strings.HasPrefix(pk.PkgPath, modPrefix+"/exporter/exporterhelper") {
+				continue
+			}
+			for _, fn := range p.AllSrcFuncs(pk) {
+				if fn.Parent() != nil || fn.Signature.Recv() != nil || !strings.Contains(fn.Name(), "RequestsSizer") || fn.Signature.Results().Len() != 1 {
+					continue
+				}
+				for _, r := range returnsOf(fn) {
+					n++
+					ok := false
+					if mi, isMI := resultsOf(r)[0].(*ssa.MakeInterface); isMI {
+						if nt := namedOf(mi.X.Type()); nt != nil && nt.Origin() == target {
+							ok = true
+						}
+					}
+					c.Check(ok, fnName(fn)+" returns the type the persistent queue tests for", p.Pos(r.Pos()), target.Obj().Name(), "the constructor returns another implementation that also answers 1: the queue's type test fails silently, the queue treats itself as not request-sized and, after a kill, restores its size from the last periodic snapshot instead of the indices – the size gauge reads 6 for 9 undelivered requests and the same number feeds the capacity check")
+				}
+			}
+		}
+		if n == 0 {
+			c.Undecided("constructors of the requests sizer", "-", "none found")
+		}
+	}
+}
+
+func runC20Signals(c *Ctx) {
+	p := c.P
+	c.Rule("R17", "GATE", "the reload signal is always handled: the signal.Notify call that subscribes SIGHUP is unconditional in Run – DisableGracefulShutdown only decides about SIGINT/SIGTERM; with an unhandled SIGHUP the reload signal kills the process", 1)
+	m := p.LookupMethod("otelcol", "Collector", "Run")
+	if m == nil {
+		c.Anchor("Collector.Run")
+		return
+	}
+	fn := p.SSAFunc(m)
+	n := 0
+	for _, ci := range callsNamed(fn, func(f *types.Func) bool { return f.FullName() == "os/signal.Notify" }) {
+		hasHUP := false
+		elems, _ := variadicElems(ci.Common().Args[len(ci.Common().Args)-1])
+		for _, e := range elems {
+			for v := range backSlice(e) {
+				if k, ok := constInt(v); ok && k == 1 {
+					hasHUP = true
+				}
+			}
+		}
+		if !hasHUP {
+			continue
+		}
+		n++
+		cond := ""
+		for _, cv := range controllingCondsDeep(ci.Block()) {
+			for v := range backSlice(cv) {
+				if fa, ok := v.(*ssa.FieldAddr); ok {
+					cond = derefStruct(fa.X.Type()).Field(fa.Field).Name()
+				}
+			}
+		}
+		c.Check(cond == "", "SIGHUP subscription in Run is unconditional", p.Pos(ci.Pos()), "not under a settings test", "SIGHUP is only subscribed under a test of "+cond+": with that option set the signal keeps its default action and `kill -HUP` terminates the collector instead of reloading the configuration")
+	}
+	if n == 0 {
+		c.Undecided("signal.Notify call that subscribes SIGHUP", p.Pos(fn.Pos()), "not found")
+	}
+}
+
+func runC15Round5b(c *Ctx) {
+	p := c.P
+	c.Rule("R13", "TAB", "the receiver decides about a request's media type on the parsed type: a Content-Type header value is never compared with the OTLP media types as it is (parameters such as `; charset=utf-8` and case are legal) – the comparison operand comes from the media-type parser", 2)
+	rpk := p.Pkg("receiver/otlpreceiver")
+	if rpk == nil {
+		c.Anchor("receiver/otlpreceiver")
+		return
+	}
+	n := 0
+	for _, fn := range p.AllSrcFuncs(rpk) {
+		allInstrs(fn, func(in ssa.Instruction) {
+			bo, ok := in.(*ssa.BinOp)
+			if !ok || bo.Op != token.EQL {
+				return
+			}
+			for _, pair := range [][2]ssa.Value{{bo.X, bo.Y}, {bo.Y, bo.X}} {
+				s, isStr := constString(pair[1])
+				if !isStr || !(s == "application/x-protobuf" || s == "application/json") {
+					continue
+				}
+				n++
+				raw := false
+				if call, ok := pair[0].(*ssa.Call); ok {
+					if f := calleeOf(call); f != nil && f.FullName() == "(net/http.Header).Get" {
+						raw = true
+					}
+				}
+				c.Check(!raw, fmt.Sprintf("media type comparison #%d in %s uses the parsed type", n, fnName(fn)), p.Pos(bo.Pos()), "operand from the media-type parser", "the raw header value is compared: a request with `Content-Type: application/json; charset=utf-8` that fails authentication or decompression is answered 500 with the fallback encoding instead of 401/400 in its own encoding")
+			}
+		})
+	}
+	if n == 0 {
+		c.Undecided("media type comparisons in the OTLP receiver", "-", "none found")
+	}
+
+	c.Rule("R14", "COV", "the throttling information of a status is found wherever it stands among the details: the search returns from inside its loop only with the RetryInfo it found – a detail it cannot interpret (a vendor type that is not linked in) is skipped, not taken as `no RetryInfo`", 1)
+	spk := p.Pkg("internal/statusutil")
+	if spk == nil {
+		c.Anchor("internal/statusutil")
+		return
+	}
+	n = 0
+	for _, fn := range p.AllSrcFuncs(spk) {
+		if fn.Parent() != nil || fn.Signature.Results().Len() != 1 {
+			continue
+		}
+		loops := allLoops(fn)
+		if len(loops) == 0 {
+			continue
+		}
+		if rn := namedOf(fn.Signature.Results().At(0).Type()); rn == nil || rn.Obj().Name() != "RetryInfo" {
+			continue
+		}
+		n++
+		var bad *ssa.Return
+		for _, r := range returnsOf(fn) {
+			if !isNilConst(resultsOf(r)[0]) {
+				continue
+			}
+			// a `nothing found` verdict taken on something examined inside the loop (a type test of the current detail)
+			for _, g := range guardsOf(r.Block()) {
+				for v := range backSlice(g.Cond) {
+					if ta, ok := v.(*ssa.TypeAssert); ok {
+						for _, body := range loops {
+							if body[ta.Block()] {
+								bad = r
+							}
+						}
+					}
+				}
+			}
+		}
+		c.Check(bad == nil, fnName(fn)+" examines every detail", p.Pos(fn.Pos()), "no `nothing found` verdict inside the loop", "the search gives up at a detail it cannot use ("+posOf(p, bad)+"): a status whose details hold a vendor-specific detail before the RetryInfo is treated as not throttled – the gRPC exporter classifies RESOURCE_EXHAUSTED as permanent and drops the data, the HTTP receiver omits Retry-After")
+	}
+	if n == 0 {
+		c.Undecided("RetryInfo search", "-", "not found")
+	}
+}
+
+// isLoopCounterTest: `i < len(x)`-style exit test of a range/for loop.
+func isLoopCounterTest(v ssa.Value) bool {
+	bo, ok := v.(*ssa.BinOp)
+	if !ok || bo.Op != token.LSS {
+		return false
+	}
+	_, isPhiOrAdd := bo.X.(*ssa.BinOp)
+	_, isPhi := bo.X.(*ssa.Phi)
+	return isPhiOrAdd || isPhi
+}
+
+func runC16CopyLoop(c *Ctx) {
+	p := c.P
+	c.Rule("R14", "ORD", "what a Read returned is written before its error is looked at: in a hand-written copy loop of the HTTP compression code the Write of the n bytes just read is not on the `no error yet` side of the end-of-input test – io.Reader may return the last chunk together with io.EOF (io.Copy handles that; the rule is vacuous while the code uses io.Copy)", 0)
+	pk := p.Pkg("config/confighttp")
+	if pk == nil {
+		c.Anchor("config/confighttp")
+		return
+	}
+	n := 0
+	for _, fn := range p.AllSrcFuncs(pk) {
+		reads := calls(fn, func(ci ssa.CallInstruction) bool {
+			return ci.Common().IsInvoke() && ci.Common().Method.Name() == "Read" && len(ci.Common().Args) == 1
+		})
+		writes := calls(fn, func(ci ssa.CallInstruction) bool {
+			return ci.Common().IsInvoke() && ci.Common().Method.Name() == "Write" && len(ci.Common().Args) == 1
+		})
+		if len(reads) == 0 || len(writes) == 0 {
+			continue
+		}
+		if _, body := innermostLoop(reads[0].Block()); body == nil {
+			continue
+		}
+		n++
+		bad := false
+		for _, w := range writes {
+			for _, g := range guardsOf(w.Block()) {
+				// a guard on the Read's error result
+				for v := range backSlice(g.Cond) {
+					if ex, ok := v.(*ssa.Extract); ok && ex.Index == 1 {
+						for _, r := range reads {
+							if ex.Tuple == r.Value() {
+								bad = true
+							}
+						}
+					}
+				}
+			}
+		}
+		c.Check(!bad, "copy loop in "+fnName(fn)+" writes what was read before it looks at the error", p.Pos(fn.Pos()), "Write not guarded by the Read's error", "the loop returns on io.EOF (or an error) before writing the bytes that came with it: a body whose last Read returns data together with io.EOF (a forwarded response body, a flate/gzip reader) is sent truncated – the server answers 200 and the handler reads 99328 of 100000 bytes")
+	}
+	if n == 0 {
+		c.OK("no hand-written copy loop in the HTTP compression code (bodies are fed through io.Copy)", "-", "nothing to order")
+	}
+}
+
+func runC02Shares5(c *Ctx) {
+	shareRule(c, "C03", runC03, []string{"C03.R6"}, "R16", "PAIR", "a wait_for_result producer whose request was split receives the outcome of all its parts (same rule as C03.R6, the completion fan-in): the ref-counted done merges every partial outcome and hands the aggregate to the queue's done", 3)
+}
+
+func runC05Shares5(c *Ctx) {
+	shareRule(c, "C03", runC03, []string{"C03.R5"}, "R15", "TS", "the stop signal of the retry sender is a broadcast (same rule as C03.R5): Shutdown closes the channel, so every request that is waiting for its next attempt – and every one that arrives later – stops retrying", 1)
+}
+
+// ---------- C02.R16 (explicit part) / R17 ----------
+func runC02Round5b(c *Ctx) {
+	p := c.P
+	pk := p.Pkg("exporter/exporterhelper/internal/queuebatch")
+	q := findQB(p)
+	if pk == nil || q == nil {
+		c.Anchor("queuebatch")
+		return
+	}
+	c.Rule("R16", "", "", 0)
+	n := 0
+	for _, fn := range p.AllSrcFuncs(pk) {
+		if fn.Parent() != nil || fn.Name() != "OnDone" || fn.Signature.Recv() == nil || len(fn.Params) != 2 {
+			continue
+		}
+		st := derefStruct(fn.Params[0].Type())
+		if st == nil {
+			continue
+		}
+		counted := false
+		for i := 0; i < st.NumFields(); i++ {
+			if strings.Contains(strings.ToLower(st.Field(i).Name()), "refcount") {
+				counted = true
+			}
+		}
+		if !counted {
+			continue
+		}
+		for _, ci := range calls(fn, func(ci ssa.CallInstruction) bool {
+			return ci.Common().IsInvoke() && ci.Common().Method.Name() == "OnDone"
+		}) {
+			n++
+			acc := false
+			for v := range backSlice(ci.Common().Args[0]) {
+				if fa, ok := v.(*ssa.FieldAddr); ok && strip(fa.X) == ssa.Value(fn.Params[0]) {
+					acc = true
+				}
+			}
+			c.Check(acc, "outcome handed on by "+fnName(fn)+" is the accumulated one", p.Pos(ci.Pos()), "argument read from the receiver's accumulator", "the ref-counted completion hands on the outcome of the part that happened to finish last: a wait_for_result producer whose request was split is told `success` although an earlier part of its own request failed")
+		}
+	}
+	if n == 0 {
+		c.Undecided("ref-counted completion", "-", "not found")
+	}
+
+	c.Rule("R17", "DEP", "a producer waits for space with its own context: the context handed to the condition variable's Wait is the Offer caller's, it has not passed through context.WithoutCancel / Background on the way (the detached context is for what is stored with the request, after the wait) – a blocked producer returns with its context's error when the context ends first", 2)
+	n = 0
+	detached := func(v ssa.Value) string {
+		for x := range backSlice(v) {
+			if call, ok := x.(*ssa.Call); ok {
+				if f := calleeOf(call); f != nil && f.Pkg() != nil && f.Pkg().Path() == "context" && (f.Name() == "WithoutCancel" || f.Name() == "Background" || f.Name() == "TODO") {
+					return "context." + f.Name()
+				}
+			}
+		}
+		return ""
+	}
+	for _, fn := range p.AllSrcFuncs(pk) {
+		if fn.Parent() != nil {
+			continue
+		}
+		for _, w := range calls(fn, func(ci ssa.CallInstruction) bool {
+			sf := staticCalleeFn(ci)
+			return sf != nil && sf.Name() == "Wait" && recvNamedOfFn(sf) == q.cond
+		}) {
+			n++
+			arg := w.Common().Args[len(w.Common().Args)-1]
+			why := detached(arg)
+			// one level up: the callers that pass the context in
+			var prm *ssa.Parameter
+			for v := range backSlice(arg) {
+				if pp, ok := v.(*ssa.Parameter); ok && typeIs(pp.Type(), "context", "Context") {
+					prm = pp
+				}
+			}
+			if why == "" && prm != nil {
+				idx := -1
+				for i, pp := range fn.Params {
+					if pp == prm {
+						idx = i
+					}
+				}
+				for _, caller := range p.AllSrcFuncs(pk) {
+					for _, cc := range calls(caller, func(ci ssa.CallInstruction) bool {
+						sf := staticCalleeFn(ci)
+						return sf != nil && (sf == fn || sf.Origin() == fn)
+					}) {
+						if idx >= 0 && idx < len(cc.Common().Args) {
+							if d := detached(cc.Common().Args[idx]); d != "" && caller.Object() != nil && caller.Object().Exported() {
+								why = d + " in " + fnName(caller)
+							}
+						}
+					}
+				}
+			}
+			c.Check(why == "", "space wait in "+fnName(fn)+" runs on the producer's context", p.Pos(w.Pos()), "context not detached before the wait", "the context is detached ("+why+") before the block-on-overflow wait: a producer blocked on a full queue ignores its cancellation and deadline, and its request is enqueued long after the caller gave up")
+		}
+	}
+	if n == 0 {
+		c.Undecided("space waits of the queues", "-", "none found")
 	}
 }
